@@ -17,6 +17,7 @@
 EXTENDS Integers, FiniteSets, Sequences, TLC, Json
 
 CONSTANTS Family,   \* "mat" | "matdiff" | "vec" | "sym" (diagonal blocks: SymDense.SliceSym, TriDense.SliceTri)
+                    \* | "matvec" (a Dense window and a column / row VIEW of the same parent as a VecDense)
           R1, C1,   \* shape of the first parent matrix laid over the backing (vec: max n, max inc)
           R2, C2,   \* shape of the second parent (matdiff only)
           BackLen,  \* vec: length of the backing array
@@ -109,6 +110,22 @@ VecCase(v1, v2) ==
     IN [fam |-> Family, w1 |-> v1, w2 |-> v2, rel |-> rel, expect |-> Expect(rel, same), expectIso |-> ExpectIso(rel, same),
         alg |-> AlgVec(v1, v2)]
 
+\* column and row views of an R x C parent as vectors (Dense.ColView / RowView, then SliceVec):
+\* a column view has increment C (the parent's stride), a row view increment 1
+ColViews(R, C) == {[off |-> i * C + j, n |-> k - i, inc |-> C] : i \in 0 .. R - 1, k \in 1 .. R, j \in 0 .. C - 1}
+RowViews(R, C) == {[off |-> i * C + j, n |-> l - j, inc |-> 1] : i \in 0 .. R - 1, j \in 0 .. C - 1, l \in 1 .. C}
+ViewsOf(R, C) == {v \in ColViews(R, C) \cup RowViews(R, C) : v.n > 0}
+\* mat treats a vector operand as the n x 1 matrix with stride inc (generalFromVector)
+AsGeneral(v) == [off |-> v.off, r |-> v.n, c |-> 1, st |-> v.inc]
+\* receiver = matrix window, operand = vector view (and the other way round: "vecmat" below).
+\* "Same stride" in the property's sense: the view steps by the parent's stride (column views);
+\* a row view steps by 1, for which the detection arithmetic is documented to be conservative.
+MatVecCase(w, v) ==
+    LET rel == RelSets(Cells(w), VCells(v), Cells(w) = VCells(v))
+        same == v.inc = w.st
+    IN [fam |-> Family, w1 |-> w, w2 |-> v, rel |-> rel, expect |-> Expect(rel, same), expectIso |-> ExpectIso(rel, same),
+        alg |-> AlgMat(w, AsGeneral(v))]
+
 InShard(w) == (w.off % NShards) = Shard
 
 \* the receiver itself (the same Go value), or its implicit transpose, as an operand:
@@ -125,6 +142,7 @@ Cases == CASE Family = "mat"     -> MatSelf \cup {MatCase(w1, w2) : w1 \in {w \i
                                                             w2 \in {w \in MatWin(R2, C2) : TRUE}}
            [] Family = "sym"     -> {SelfCase(w, "self") : w \in {x \in DiagWin(R1) : InShard(x)}}
                                     \cup {MatCase(w1, w2) : w1 \in {w \in DiagWin(R1) : InShard(w)}, w2 \in DiagWin(R1)}
+           [] Family = "matvec"  -> {MatVecCase(w, v) : w \in {x \in MatWin(R1, C1) : InShard(x)}, v \in ViewsOf(R1, C1)}
            [] Family = "vec"     -> VecSelf \cup {VecCase(v1, v2) : v1 \in {v \in VecWinOK(R1, C1, BackLen) : InShard(v)},
                                                        v2 \in VecWinOK(R1, C1, BackLen)}
 
@@ -136,7 +154,8 @@ Spec == Init /\ [][Next]_c
 (************************** theorems TLC checks (R1) *************************)
 \* the detection algorithm is exact on windows of one parent (equal strides / increments)
 AlgExact ==
-    (Family = "vec" /\ c.w1.inc # c.w2.inc) \/ (Family # "vec" /\ c.w1.st # c.w2.st)
+    (Family = "vec" /\ c.w1.inc # c.w2.inc) \/ (Family = "matvec" /\ c.w1.st # c.w2.inc)
+    \/ (Family \notin {"vec", "matvec"} /\ c.w1.st # c.w2.st)
     \/ (c.alg = "none") = (c.rel = "disjoint")
 \* with different strides/increments the algorithm may be conservative but never misses an overlap
 AlgSafe == c.rel # "disjoint" => c.alg # "none"
